@@ -258,6 +258,15 @@ PostN(f, i, o) ==
            /\ o.ret = Len(i.expect) /\ o.guard = 1
            /\ (i.size > 0 => o.buf = SubSeq(i.expect, 1, IF i.size - 1 < Len(i.expect) THEN i.size - 1 ELSE Len(i.expect)))
      [] f = "gmp_asprintf" -> o.ret = Len(i.expect) /\ o.text = i.expect /\ o.blksz = Len(i.expect) + 1
+        \* "%c%Zd|" with the NUL character: output = 00, the decimal digits, '|' (and the terminating 00 where the function stores one); count = 1 + digits + 1
+     [] f = "gmp_printf_nul" ->
+           LET dec == (IF ZIsNeg(i.v) THEN "-" ELSE "") \o ZDigits(ZAbs(i.v), 10, "0123456789abcdef")
+               RECURSIVE HexOf(_)
+               HexOf(t) == IF t = "" THEN "" ELSE (IF SubSeq(t, 1, 1) = "-" THEN "2d" ELSE "3" \o SubSeq(t, 1, 1)) \o HexOf(SubSeq(t, 2, Len(t)))
+               body == "00" \o HexOf(dec) \o "7c"
+           IN  /\ o.ret = Len(dec) + 2
+               /\ o.hex = (IF i.fam \in {"gmp_sprintf", "gmp_snprintf", "gmp_asprintf"} THEN body \o "00" ELSE body)
+     [] f = "gmp_sscanf_lit" -> o.ret = 1 /\ o.v = i.v /\ o.fret = 1 /\ o.fv = i.v
      [] f = "gmp_printf_mixed" -> o.g = i.expect /\ o.ret = Len(i.expect)
      [] f = "gmp_printf_f" -> o.ret = Len(o.text) /\ PrintfFOK(o.text, i.mant, i.exp, i.sz, i.prec)
      [] f = "gmp_printf_hp" -> o.ret = o.len /\ o.len > 0          \* operand of 20000 bits precision: the count is the length (the AddressSanitizer pass watches the table accesses)
